@@ -35,6 +35,15 @@ FAULTS = [
     ("duplicate", "LABEL({X})", "already been defined", "name-or-X", "top"),
     ("overlong-char", "SET(R1, {X})", "over-long character", "X", "'ab'"),
     ("escape-warning", 'LP_STRING("a{X}b")', "unrecognized backslash escape", "X", "\\q"),
+    # negative literals: the lexer gives the sign and the digits as two tokens, with anything between them; the report must
+    # be on the sign or on a digit ("signdigit"), never on what separates them
+    ("neg-range", "SETLO(R1, {X})", "integer must be in range", "signdigit", "-300"),
+    ("neg-range-blank", "SETLO(R1, {X})", "integer must be in range", "signdigit", "- 300"),
+    ("neg-range-tab", "SET(R1, {X})", "integer must be in range", "signdigit", "-\t70000"),
+    ("neg-range-comment", "INC(R1, {X})", "integer must be in range", "signdigit", "-/* c */5"),
+    ("neg-range-newline", "SET(R1, {X})", "integer must be in range", "signdigit", "-\n70000"),
+    ("neg-range-newline-indent", "SETLO(R2, {X})", "integer must be in range", "signdigit", "- // c\n    300"),
+    ("neg-not-register", "ADD(R1, R2, {X})", "expected register", "signdigit", "- 5"),
 ]
 # run-time diagnostics: the operation is executed; an identical operation that is never executed (or executed later)
 # stands elsewhere in the program, so that only the identity of the reported operation tells them apart
@@ -198,6 +207,12 @@ def run_case(case, d):
         return "the quoted source line {!r} is not line {} of the file ({!r})".format(quoted[:40], line, want_line[:40]), key
     if not (1 <= col <= len(lines[line - 1]) + 1):
         return "column {} does not exist in line {}".format(col, line), key
+    if case["where"] == "signdigit":
+        inside = (line, col) >= (tl, tc) and (line, col) <= (el, ec)
+        ch = lines[line - 1][col - 1:col]
+        if not inside or ch not in tuple("-0123456789"):
+            return "{} reported at line {} col {} (character {!r}) but the operand {!r} has its sign at line {} col {} and ends at line {} col {}".format(
+                case["kind"], line, col, ch, case["tok"], tl, tc, el, ec), key
     if case["where"] in ("X", "name", "name-or-X"):
         inside = (line, col) >= (tl, tc) and (line, col) <= (el, ec)
         if case["where"] == "name-or-X" and not inside:
